@@ -3,7 +3,7 @@
    No Extract Constant anywhere. *)
 From Coq Require Import List NArith ZArith.
 From Coq Require Extraction ExtrOcamlBasic.
-From MSP Require Import Model.Cksum Model.LzssBase Model.Lzss Model.LzssEnc.
+From MSP Require Import Model.Cksum Model.LzssBase Model.Lzss Model.LzssEnc Model.Mszip Model.Lzx Model.Qtm.
 Extraction Language OCaml.
 Set Extraction Optimize.
-Extraction "model.ml" cksum lzss_spec lzss_enc block_accepts lzss_enc_expand wf_tok.
+Extraction "model.ml" cksum lzss_spec lzss_enc block_accepts lzss_enc_expand wf_tok mszip_ideal lzx_run qtm_run.
